@@ -43,7 +43,11 @@ Conforms(t, l) ==
       [] t = "null"    -> a.t = "null"
       [] t = "strnull" -> a.t \in {"str", "null"}
 
-Uses == {"req", "opt", "ref", "items", "optdefault"}
+\* "reqsized" / "refsized" / "reqsizedb": the uses req / ref generated with --min-sized-ints (integer enums only; the
+\* last one with bounds 0..100 next to the enum, which select an unsigned 8-bit type for a plain integer): the flag
+\* must not change the accepted set (before fix 86d9885 the sized carrier matched none of the listed values)
+Uses == {"req", "opt", "ref", "items", "optdefault", "reqsized", "refsized", "reqsizedb"}
+SizedUses == {"reqsized", "refsized", "reqsizedb"}
 
 EnumSchema(t, l) ==
   ("enum" :> [i \in DOMAIN l |-> Atoms[l[i]]])
@@ -52,13 +56,14 @@ EnumSchema(t, l) ==
 Wrap(x) == JObj(<<KV("x", x)>>)
 
 Unit(us, t, l) ==
-  LET es == EnumSchema(t, l)
+  LET es == EnumSchema(t, l) @@ (IF us = "reqsizedb" THEN ("minimum" :> JNum(0)) @@ ("maximum" :> JNum(400)) ELSE <<>>)
       firstNonNull == {i \in DOMAIN l : Atoms[l[i]].t # "null"}
-      us2 == IF us = "optdefault" /\ firstNonNull = {} THEN "opt" ELSE us
+      us2 == IF us = "optdefault" /\ firstNonNull = {} THEN "opt"
+             ELSE IF us \in {"reqsized", "reqsizedb"} THEN "req" ELSE IF us = "refsized" THEN "ref" ELSE us
       dflt == Atoms[l[CHOOSE i \in firstNonNull : \A j \in firstNonNull : i <= j]]
       xobj(s, r) == ("type" :> <<"object">>) @@ ("properties" :> <<[k |-> "x", s |-> s]>>)
                     @@ (IF r THEN "required" :> <<"x">> ELSE <<>>)
-      base == [prop |-> "C08", use |-> us2, defs |-> <<>>,
+      base == [prop |-> "C08", use |-> us2, defs |-> <<>>, opts |-> [minSizedInts |-> us \in SizedUses],
                nobuild |-> IF us2 = "optdefault" /\ Carrier(es) = "iface" THEN <<"DefaultOnWrappedEnum">> ELSE <<>>]
       docs == [i \in DOMAIN Values |-> Wrap(Values[i])] \o <<JObj(<<>>)>>
   IN
@@ -105,6 +110,7 @@ AsIsOK   == Set => LET unit == u IN Agree(unit, Devs)
 
 Init == use \in Uses /\ ty \in Types_ /\ lst = <<0>>
 Pick == /\ lst = <<0>>
+        /\ (use \in SizedUses => ty = "integer")
         /\ lst' \in {l \in Lists : Distinct(l) /\ Conforms(ty, l)}
                    \cup (IF ty = "string" /\ use \in {"req", "ref"} THEN {l \in CollideLists : Distinct(l)} \cup HostileLists ELSE {})
         /\ UNCHANGED <<use, ty>>
